@@ -2,6 +2,7 @@ import Ivg.Lemmas.RendererVM
 import Ivg.Lemmas.RenderHist
 import Ivg.Gen.Tie.Dc1
 import Ivg.Gen.Tie.RendererFields
+import Ivg.Gen.Tie.Code.RenderRegs
 import Ivg.Obligations
 /-!
 # C04 — the Renderer fills each path with the paint the specification's machine prescribes
@@ -398,4 +399,14 @@ end Ivg.Props.C04
   Ivg.Props.C04.realise_current, Ivg.Props.C04.realise_after_rast, Ivg.Props.C04.body_refines_hist,
   Ivg.Props.C04.render_refines_vm_hist, Ivg.Props.C04.render_refines_vm_rast, Ivg.Props.C04.render_refines_vm_reuse,
   Ivg.Lemmas.RendererVM.arcF32_pure,
-  Ivg.Gen.Tie.renderer_fields_tie, Ivg.Gen.Tie.dc1Table_tie]
+  Ivg.Gen.Tie.renderer_fields_tie, Ivg.Gen.Tie.dc1Table_tie,
+  -- regenerated code (translator, Ivg/Gen/Code) = model, for all inputs: RenderRegs
+  Ivg.Gen.Tie.renderer_CSel_code_tie,
+  Ivg.Gen.Tie.renderer_NSel_code_tie,
+  Ivg.Gen.Tie.renderer_SetCSel_code_tie,
+  Ivg.Gen.Tie.renderer_SetNSel_code_tie,
+  Ivg.Gen.Tie.renderer_SetLOD_code_tie,
+  Ivg.Gen.Tie.renderer_SetNReg_code_tie,
+  Ivg.Gen.Tie.positiveInfinity_code_tie,
+  Ivg.Gen.Tie.renderer_Reset_code_tie,
+  Ivg.Gen.Tie.renderer_Reset_code_tie_frame]
